@@ -8,16 +8,21 @@
      generated query carries a distinct literal tag and an argument that identifies the row, so the
      k-th invocation of the fault-free run is a unique (tag, x) pair.
    * RAISE(msg)             — functions.go RaiseFunc: Guard(1), then always an error.
-   * RAISE_WHEN(cond, msg)  — functions.go RaiseWhenFunc: Guard(2); AsType[bool](cond): a NULL
-     condition yields a nil *bool whose dereference panics, a non-bool is an error; cond = true is an
-     error; cond = false returns Ommit(true): the select item adds no column.
+   * RAISE_WHEN(cond, msg)  — functions.go RaiseWhenFunc: Guard(2); asNonNull[bool](cond): a NULL
+     or non-bool condition is an error; cond = true is an error; cond = false returns Ommit(true):
+     the select item adds no column.
    Qualifiers: none or SCOPED evaluate the arguments and call the function (the two branches of
    FunExpr are identical).  ONCE / GLOBAL cache by function NAME in the query object, ASYNC / SPIN run
    in goroutines: all of them are outside this model (OutOfModel).
 
    [fault_join] is Model/Join.v's exec_join with the hook threaded into the ON-clause evaluator
    (JoinMatchFunc calls Expr, which reaches FunExpr when the ON expression contains a call outside
-   a comparison — extractJoinColumns only inspects comparisons).  Definitions only. *)
+   a comparison — extractJoinColumns only inspects comparisons).  Caveat: FunExpr calls
+   FuncArgReader WITHOUT the hard-coded-read option, so a column reference inside the arguments of
+   a call in ON is looked up as a nested path in the flat key map and reads as NULL in the Go code,
+   whereas [eval] keeps e_hard for the arguments; the model of calls in ON is therefore faithful for
+   arguments without column references only (the harness generates literals there).
+   Definitions only. *)
 From Coq Require Import Floats.
 From GenqlV Require Import Base.Prelude Base.Value Model.Ast Model.Eval Model.Exec Model.Join.
 Local Open Scope list_scope.
@@ -50,8 +55,7 @@ Definition raise_when_fn (args : list value) : res raw :=
   match args with
   | [VBool true; _] => Err
   | [VBool false; _] => Ok ROmit
-  | [VNull; _] => Panic                       (* *cond on the nil *bool AsType returns for nil *)
-  | [_; _] => Err                             (* INVALID_CAST *)
+  | [_; _] => Err                             (* asNonNull[bool]: NULL or a non-bool condition *)
   | _ => Err                                  (* Guard(2, args) *)
   end.
 
